@@ -519,3 +519,24 @@ def r10_12_no_wrapping_time_arithmetic_on_date_times(ctx: Ctx) -> RuleResult:
         else:
             rr.ok({"class": c.qual})
     return rr
+
+
+@rule("C10")
+def r10_13_time_field_units(ctx: Ctx) -> RuleResult:
+    """Every time period field (nanoseconds ... hours) is described by two numbers: nanoseconds per unit and units per day; all
+    wrap-around arithmetic reduces amounts modulo units-per-day first.  For each of the seven field instances (evaluated from
+    their construction sites) the two must multiply to exactly one day, whichever way the second is obtained (computed or
+    passed in)."""
+    from ..oblig import time_period_field_instances
+
+    rr = RuleResult("R10.13", "time period fields: nanoseconds-per-unit x units-per-day == nanoseconds per day for every field instance", min_instances=7)
+    npd = ctx.M.fold_class_const("PyodaConstants", "NANOSECONDS_PER_DAY")
+    for name, inst in time_period_field_instances(ctx):
+        rr.inst()
+        u = next((v for k, v in inst.fields.items() if k.endswith("__unit_nanoseconds")), None)
+        d = next((v for k, v in inst.fields.items() if k.endswith("__units_per_day")), None)
+        if isinstance(u, Iv) and isinstance(d, Iv) and u.const and d.const and int(u.lo) * int(d.lo) == npd:
+            rr.ok({"field": name, "unit_ns": int(u.lo), "units_per_day": int(d.lo)})
+        else:
+            rr.fail(f"_TimePeriodField.{name}", f"nanoseconds per unit {u} x units per day {d} is not one day ({npd} ns): amounts are reduced modulo the wrong number of units", "pyoda_time/fields/_time_period_field.py")
+    return rr
